@@ -140,6 +140,7 @@ type Engine struct {
 	conc     bool
 
 	ordinals      map[string]int
+	pureMode      bool
 	fnByKey       map[string]*ssa.Function
 	forceInline   map[string]bool
 	usedContracts map[string]bool
@@ -208,7 +209,7 @@ func (x *Engine) declRaw(key, line string) {
 func (x *Engine) emit(line string) { x.script = append(x.script, line) }
 
 func (x *Engine) assume(st *State, f string) {
-	if f == "true" {
+	if f == "true" || x.pureMode {
 		return
 	}
 	if st.live == "true" {
@@ -221,6 +222,9 @@ func (x *Engine) assume(st *State, f string) {
 // name binds a term to a fresh defined constant to keep strings small.
 func (x *Engine) name(prefix, sort, term string) string {
 	if len(term) < 24 && !strings.Contains(term, " ") {
+		return term
+	}
+	if x.pureMode {
 		return term
 	}
 	n := x.fresh(prefix)
@@ -542,6 +546,9 @@ func (x *Engine) get(st *State, key string) string {
 }
 
 func (x *Engine) set(st *State, key, term string) {
+	if x.pureMode {
+		panic("impure")
+	}
 	st.h[key] = x.name("H", x.compSortOf(key), term)
 }
 
